@@ -37,3 +37,6 @@ CFG["level_extra"] = ('Avalanche stage: Event/EventSlots.v maps the assembled ev
                       'every permutation of the raw bank list and any two HashMap orders success is alike and the MainEvent values, '
                       'avalanche model outputs and timestamps are EQUAL (C11_e2e_avalanches_perm_invariant), for every instance of '
                       'the kernels. That the real avalanches()/vertex() are such functions in one process stays with C13/C14/C17 + rel11.')
+
+# a run with fewer cases than half of what the quick tier generates today would be a (partly) vacuous differential
+CFG["min_cases"] = 515
